@@ -40,9 +40,10 @@ PROPS["C16"] = dict(
         "an absent header (null view from the carrier) and a header with an empty value are both 'missing'",
         "the public static helpers TraceIdFromHex / SpanIdFromHex / TraceFlagsFromHex called directly: documented "
         "spellings give exactly the value, other hex spellings the value or the zero id, an over-long value that does "
-        "not fit is left to the sanitizers; arguments holding a non-hex byte are NOT generated at present (held back "
-        "as candidate C16-fromhex-nonhex, see proposed_fixes/): when generated, the zero id - the only way such a "
-        "helper can say 'no id' and what Extract tests after the call - is expected",
+        "not fit is left to the sanitizers; arguments holding a non-hex byte are NOT generated: Extract validates with IsValidHex "
+        "before it calls the helpers and the statement speaks of Inject/Extract, so non-hex arguments are outside the "
+        "helpers' contract as far as this property goes (observation C16-fromhex-nonhex: HexToBinary shifts -1; "
+        "proposed_fixes/C16-fromhex-nonhex.diff shows a repair)",
         "Inject must write a canonical header of its own format (what a strict reader of the documents accepts and "
         "decodes to the same ids and sampling decision); X-B3-Sampled is '0' or '1'",
         "returning the caller's context unchanged is observed as Context::operator== plus an untouched span slot",
